@@ -169,7 +169,7 @@ pub fn c18_pair_judge(p: &Pair<C18Case>, obs: &mut Obs) -> Result<(), String> {
                 let dns = match *op {
                     BOp::Frame(sel) => DELTAS_NS[sel as usize % DELTAS_NS.len()],
                     BOp::FrameToEnd(sel) => {
-                        const OFF: [i64; 9] = [-2, -1, 0, 1, 2, 40, 400, 900, 1500];
+                        const OFF: [i64; 13] = [-2, -1, 0, 1, 2, 40, 400, 900, 1500, -30, -60, -100, -120];
                         let total = c18_total(&p.x, x_installed);
                         let ahead = (total * 1e9).round() + OFF[sel as usize % OFF.len()] as f64 - pos0.as_nanos() as f64;
                         if total.is_finite() && ahead > 0.0 && ahead < 1e15 {
